@@ -68,7 +68,7 @@ class Inliner:
         # entry point with the helper's body in place, so it reads the same whether or not the helper exists)
         frx = [re.compile(x) for x in flatten]
         for f in self.fns:
-            flat = any(r.search(f.get("qname", "")) for r in frx) and f.get("parent", -1) == -1
+            flat = any(r.search(f.get("qname", "")) for r in frx) and f.get("parent_fn", -1) == -1
             if flat:
                 f["new_helper"] = True
                 f["_flattened"] = True
@@ -149,7 +149,46 @@ class Inliner:
                 newev.append(e)
             b["events"] = newev
 
+    def _functors_as_lambdas(self, f):
+        """A function object of a class that is new relative to the reference tree ('construct' node carrying
+        functor_call) stands for the lambda it replaced: the node is presented as that lambda (its call operator is the
+        body), and the call operator is adopted by the function that constructs the object."""
+        byq = {}
+        for g in self.fns:
+            if g.get("new_helper") and "blocks" in g:
+                byq.setdefault(g.get("qname"), []).append(g)
+
+        def pred(n):
+            return n.get("k") == "construct" and n.get("functor_call") in byq
+
+        def repl(n):
+            cands = byq[n["functor_call"]]
+            same = [c for c in cands if bool(c.get("pattern")) == bool(f.get("pattern"))]
+            ty = str(n.get("type", ""))
+            exact = [c for c in (same or cands) if c.get("record_full") and c.get("record_full") in ty]
+            g = (exact or same or cands)[0]
+            f.setdefault("adopted", []).append(g["id"])
+            if g.get("parent_fn", -1) in (None, -1):
+                g["parent_fn"] = f["id"]        # like the lambda it replaces, it belongs to the function that creates it
+            return {"k": "lambda", "id": g["id"], "loc": g.get("loc", ""), "functor": n.get("rec"), "captures": n.get("args", [])}
+        if not byq:
+            return
+
+        def cpred(n):
+            return n.get("k") == "cast" and isinstance(n.get("e"), dict) and n["e"].get("k") == "lambda" and n["e"].get("functor")
+
+        def crepl(n):
+            return n["e"]
+        for b in f["blocks"]:
+            b["events"] = [_walk_replace(_walk_replace(e, pred, repl), cpred, crepl) for e in b["events"]]
+            t_ = b.get("term", {})
+            if t_.get("cond") is not None:
+                t_["cond"] = _walk_replace(_walk_replace(t_["cond"], pred, repl), cpred, crepl)
+
     def run(self):
+        for f in self.fns:
+            if "blocks" in f:
+                self._functors_as_lambdas(f)
         for f in self.fns:
             if "blocks" in f:
                 self._name_lambdas(f)
@@ -347,8 +386,8 @@ class Inliner:
         # handlers / tries of the caller refer to block ids that did not change; the exit block of f is unchanged
         f.setdefault("inlined", []).append({"callee": g["qname"], "loc": call.get("loc", ""), "lambda": is_lambda})
         # lambdas written inside the spliced body now belong to the caller as well
-        f.setdefault("adopted", []).extend([h["id"] for h in self.fns if h.get("parent") == g["id"] or
-                                              (h.get("parent") in (None, -1) and h.get("qname", "").startswith(g["qname"] + "::(lambda"))] + list(g.get("adopted", [])))
+        f.setdefault("adopted", []).extend([h["id"] for h in self.fns if h.get("parent_fn", -1) == g["id"] or
+                                              (h.get("parent_fn", -1) in (None, -1) and h.get("qname", "").startswith(g["qname"] + "::(lambda"))] + list(g.get("adopted", [])))
         self.spliced_ids.add(g["id"])
         for other in self.helpers.get(g["qname"], []):      # every instantiation of the same source function
             self.spliced_ids.add(other["id"])
